@@ -256,3 +256,8 @@ REQUIRED_THEOREMS["C01"] += ["C01_common_equivalence", "C01_prim_addEdge_obs", "
                              "C01_prims_common", "C01_group_common", "C01_edgeInv_common", "C01_obligation_common"]
 REQUIRED_THEOREMS["C03"] += ["C03_valid_congr_obs", "C03_valid_congr_E", "C03_invariants_congr_obs", "C03_note_bookOK_needs_max",
                              "C03_note_measOK_needs_segOK"]
+REQUIRED_THEOREMS["C01"] += ["C01_user_deleteEdge", "C01_user_addEdge", "C01_user_swap", "C01_user_updateAttrs",
+                             "C01_user_deleteNode", "C01_user_addNode", "C01_user_deleteEdge_ctx", "C01_nodeInv_of_records",
+                             "C01_nodeInv_of_joint", "C01_note_deleteNode_foreign_pixels"]
+REQUIRED_THEOREMS["C11"] += ["C11_addEdge_forced_triple", "C11_deleteEdge_accepts", "C11_addEdge_refused", "C11_deleteEdge_refused",
+                             "C11_addNode_refused_forced"]
